@@ -69,6 +69,10 @@ type Enc struct {
 	Leaf  int   `json:"l"`
 	Obj   []Enc `json:"o,omitempty"`
 	IsObj bool  `json:"io,omitempty"`
+	// Lay: struct layout of an object. 0: embedded In/Out first. 1: embedded last. 4: embedded after the
+	// first field. Parameter objects only: 2: embedded first, tagged ignore-unexported:"true", an
+	// unexported field last; 3: an unexported field first, then the tagged embed.
+	Lay int `json:"lay,omitempty"`
 }
 
 // Fn is the spec of one harness-owned user function.
@@ -198,7 +202,7 @@ func cloneEnc(e []Enc) []Enc {
 	}
 	out := make([]Enc, len(e))
 	for i, x := range e {
-		out[i] = Enc{Leaf: x.Leaf, IsObj: x.IsObj, Obj: cloneEnc(x.Obj)}
+		out[i] = Enc{Leaf: x.Leaf, IsObj: x.IsObj, Obj: cloneEnc(x.Obj), Lay: x.Lay}
 	}
 	return out
 }
